@@ -106,7 +106,8 @@ CLAIMED = {
                  "data; a bin that is its own basic bin gets an operation that leaves bins unchanged; (d) image side: transform_image_coordinates of all 16 "
                  "operation classes maps (x,y,z) as the class name states (contract generated from the name), keeps (x,y) inside a centred square "
                  "index range, and is injective (lemma per class over the real body) - a symmetry-derived row has no voxel twice if the basic row has "
-                 "none. Not decided: equality of float row values, non-negativity, the axial coordinate staying inside the image (float-derived "
+                 "none; (e) the bundle of tangential rays traced for a bin is centred on the bin (statement kernel for the first ray's position, float, per "
+                 "number of rays), which a mirrored row needs to equal the directly computed one. Not decided: equality of float row values beyond that, non-negativity, the axial coordinate staying inside the image (float-derived "
                  "q / z_shift), that the image transform is the geometric counterpart of the bin transform, clear_cache/set_up."),
         "note": ("assumed contracts: calculate_proj_matrix_elems_for_one_bin, apply_tof_kernel, SymmetryOperation::transform_proj_matrix_elems_for_one_bin, "
                  "std::unordered_map; rows are abstract ids in (b); the virtual dispatch over the 16 operation classes is a generated switch "
